@@ -52,7 +52,7 @@ EINSUM = {
     "quad": ("i,ij,j->", [(2,), (2, 2), (2,)]), "hadamard": ("ij,ij->ij", [(2, 2), (2, 2)]),
     "transmul": ("ji,ij->ij", [(2, 2), (2, 2)]), "proj": ("ji,jk,kl->il", [(2, 2), (2, 2), (2, 2)]),
     "matsum": ("ij->", [(2, 3)]), "batched": ("bij,bj->bi", [(2, 2, 2), (2, 2)]),
-    "matmat": ("ij,jk->ik", [(2, 3), (3, 2)]),
+    "matmat": ("ij,jk->ik", [(2, 3), (3, 2)]), "selfmat": ("ij,jk->ik", [(2, 2), (2, 2)]),
     # tiny shapes for C19 (finite_difference forks ~3 ways per reported value)
     "dot2": ("i,i->", [(2,), (2,)]), "dot1": ("i,i->", [(1,), (1,)]), "outer11": ("i,j->ij", [(1,), (2,)]),
 }
@@ -66,6 +66,14 @@ def b_einsum(V, cfg):
     for i, shp in enumerate(shapes):
         st = V.cplxs("x%d" % i, shp) if cplx[i] else V.reals("x%d" % i, shp)
         sigs.append(pym.Signal("x%d" % i, st))
+    same = cfg.get("same")       # operand positions wired to ONE Signal object, e.g. [0, 2] in "i,ij,j->"
+    if same:
+        wired = list(sigs)
+        for pos in same[1:]:
+            wired[pos] = sigs[same[0]]
+        m = pym.EinSum(wired, expression=expr)
+        return Setup(m, [sg for i, sg in enumerate(sigs) if i not in same[1:]],
+                     notes=["EinSum with one Signal connected to the operands %s" % same])
     m = pym.EinSum(sigs, expression=expr)
     return Setup(m, sigs)
 
@@ -658,6 +666,10 @@ def module_grid(tier):
     for k in EINSUM:
         if k not in ("dot2", "dot1", "outer11"):
             add("einsum", k, expr=k)
+    # one signal connected to two operands of the same module (non-symmetric in those operands)
+    add("einsum", "quad-same-02", expr="quad", same=[0, 2])
+    add("einsum", "matmat-same-01", expr="selfmat", same=[0, 1])
+    add("einsum", "proj-same-02", expr="proj", same=[0, 2])
     add("einsum", "matvec-cplx", expr="matvec", cplx=[True, True])
     add("einsum", "matvec-cplxA", expr="matvec", cplx=[True, False])
     add("einsum", "dot-cplxb", expr="dot", cplx=[False, True])
